@@ -63,7 +63,11 @@ def _run_shard(exe, path, tmp, timeout_s, env, per_shard_timeout, dump=False, ex
     return mism, stats, crashes, herr, saves
 
 
-def replay(exe, behaviours, shards=16, timeout_s=20, env=None, per_shard_timeout=3000, keep=None, dump=False, extra=()):
+INTERFERE = 4      # decoy worlds kept alive in every second harness process (environment steps, see harness/replay.cc)
+CONTEXT = 6        # behaviours before a failing one that are written into its replay file (they build the decoys)
+
+
+def replay(exe, behaviours, shards=16, timeout_s=20, env=None, per_shard_timeout=3000, keep=None, dump=False, extra=(), interfere=True):
     """behaviours: list of JSON strings (or dicts).  Global behaviours are prepended to every shard."""
     t0 = time.time()
     res = ReplayResult()
@@ -87,7 +91,8 @@ def replay(exe, behaviours, shards=16, timeout_s=20, env=None, per_shard_timeout
                 for b in glob + part: f.write(b + "\n")
             paths.append(pth)
         with ThreadPoolExecutor(max_workers=shards) as ex:
-            outs = list(ex.map(lambda pth: _run_shard(exe, pth, tmp, timeout_s, e, per_shard_timeout, dump, extra), paths))
+            def xtra(i): return list(extra) + (["--interfere", str(INTERFERE)] if interfere and i % 2 == 1 else [])
+            outs = list(ex.map(lambda ip: _run_shard(exe, ip[1], tmp, timeout_s, e, per_shard_timeout, dump, xtra(ip[0])), list(enumerate(paths))))
         res.saves = {}
         for i, (mism, stats, crashes, herr, saves) in enumerate(outs):
             part = glob + parts[i]
@@ -95,6 +100,9 @@ def replay(exe, behaviours, shards=16, timeout_s=20, env=None, per_shard_timeout
                 if 0 <= idx < len(part): res.saves.setdefault(part[idx], {})[name] = vals
             for m in mism:
                 m["behaviour"] = part[m["index"]]
+                if interfere and i % 2 == 1:       # found with environment queries: keep the behaviours that built the decoys
+                    m["env"] = INTERFERE
+                    m["context"] = part[max(len(glob), m["index"] - CONTEXT):m["index"]]
                 res.mismatches.append(m)
             for c in crashes:
                 b = part[c["index"]] if 0 <= c["index"] < len(part) else "{}"
